@@ -459,3 +459,20 @@ M("m24d", "C04", "R4.3", RVI, "        if not self.gamma == 1.0:\n            ra
 B("b10", ["C04", "C08", "C02"], RVI, "        new_values = new_values - self.gain\n\n        span = self._get_span(new_values, self.values)\n\n        self.gain = new_values[-1]\n",
   "        gain = self.gain\n        self.gain = new_values[-1] - gain\n        new_values = new_values - gain\n\n        span = self._get_span(new_values, self.values)\n",
   "gain read before the subtraction, updated from the raw sweep")
+
+# =============================================================================== C17
+M("m98", "C17", "R17.3", PROBLEM,
+  "        if max_deviation > normalization_tolerance:\n            # Find the worst offending state-action pair\n            action, state = jnp.unravel_index(\n                jnp.argmax(jnp.abs(row_sums - 1.0)), row_sums.shape\n            )\n            raise ValueError(\n                f\"Transition probabilities for state {state}, action {action} sum to \"\n                f\"{row_sums[action, state]:.6f}, which deviates from 1.0 by more than \"\n                f\"the tolerance of {normalization_tolerance}\"\n            )\n",
+  "", "row-sum error check deleted (matrices silently renormalised)")
+M("m99", "C17", "R17.2", PROBLEM, "            ].add(\n                probs\n            )  # Probabilities for this action", "            ].set(\n                probs\n            )  # Probabilities for this action",
+  ".add -> .set (events sharing a successor overwrite each other)", survives="no")
+M("m99b", "C17", "R17.1", PROBLEM, "        R = jnp.sum(probs * rewards, axis=-1)  # [S, A]", "        R = jnp.mean(rewards, axis=-1)  # [S, A]", "R as an unweighted mean over events", survives="no")
+M("m99c", "C17", "R17.3", PROBLEM, "            action, state = jnp.unravel_index(", "            state, action = jnp.unravel_index(", "error message names the pair with state and action swapped")
+M("m99d", "C17", "R17.3", PROBLEM, "        if max_deviation > normalization_tolerance:", "        if max_deviation > normalization_tolerance + 1.0:", "tolerance widened by one")
+M("m99e", "C17", "R17.2", PROBLEM, "                P = update_probabilities(self, P, a, ns_idx[:, a], p[:, a])", "                P = update_probabilities(self, P, a, ns_idx[:, a], p[:, 0])",
+  "probabilities of action 0 used for every action")
+M("m99f", "C17", "R17.2", PROBLEM, "        for e in range(E):\n            # Get indices", "        for e in range(E - 1):\n            # Get indices", "last event skipped", survives="no")
+M("m99g", "C17", "R17.4", PROBLEM, "        return P, R", "        return P, R / 1.0 + 0.0 * R.sum()", "placeholder", survives="n/a")
+MUTANTS.pop()
+B("b30", ["C17"], PROBLEM, "        R = jnp.sum(probs * rewards, axis=-1)  # [S, A]", "        R = jnp.sum(rewards * probs, axis=2)  # [S, A]", "operands commuted, axis spelled 2")
+B("b31", ["C17"], PROBLEM, "        if max_deviation > normalization_tolerance:", "        if normalization_tolerance < max_deviation:", "comparison flipped")
